@@ -64,6 +64,7 @@ def gen_xs(rng, dadi, k, kind):
         return pts, xs
     if kind == 'geometric':
         x0 = float(np.exp(rng.uniform(np.log(1e-4), np.log(0.05)))); r = float(rng.uniform(1.35, 2.5))
+        if k > 1: r = min(r, max(1.2, (1.0 / x0) ** (1.0 / (k - 1))))
         xs = [coarse(x0 * r ** i) for i in range(k)]
     elif kind == 'random':
         while True:
@@ -361,7 +362,9 @@ def _k_error(chk, ctx, case, Y, impl_exc):
     driver = ctx['driver']
     if driver is None or not driver.ok(): return
     k = case['k']; n = int(np.prod(case['shape']))
-    Yin = Y if case['mode'] == 'linear' else np.log(Y)
+    with np.errstate(all='ignore'):
+        Yin = Y if case['mode'] == 'linear' else np.log(Y)
+    Yin = np.where(np.isfinite(Yin), Yin, 1.0)       # the values are irrelevant for which error is raised
     if n == 0 or k == 0:
         out = driver.ask('c07.formula %s %s' % (fmt_list([1.0] * k), fmt_list(case['xs'])))
     else:
